@@ -4,6 +4,7 @@ C11 — helper lemmas.  `cmpStrict` is byte-wise comparison that is *undefined* 
 one list is a proper prefix of the other; `cmpStrict (enc a) (enc b) = some r` therefore
 states order preservation and prefix-freeness at once and composes under concatenation.
 -/
+set_option linter.unusedSimpArgs false
 namespace ArrowModel.C11
 
 /-- strict comparison: `none` when one list is a proper prefix of the other -/
@@ -1073,5 +1074,179 @@ theorem decodeBlocks_asc (n : Nat) : ∀ (k fuel : Nat) (v acc rest : List UInt8
         rw [show schedSize k + 1 = (List.take (schedSize k) v).length + 1 by omega, List.drop_append]; simp
       rw [h1, h2, ih (k + 1) fuel' (v.drop (schedSize k)) _ rest (by simp; omega) (by simp at hf; omega)]
       rw [List.append_assoc, List.take_append_drop]
+
+
+theorem u8_not_not (x : UInt8) : ~~~(~~~x) = x := by simp
+theorem u8_not_inj {x y : UInt8} : ~~~x = ~~~y ↔ x = y := by
+  constructor
+  · intro h; rw [← u8_not_not x, h, u8_not_not]
+  · rintro rfl; rfl
+
+theorem inv_inv (x : List UInt8) : inv (inv x) = x := by
+  simp [inv, List.map_map, Function.comp_def]
+theorem inv_append (x y : List UInt8) : inv (x ++ y) = inv x ++ inv y := by simp [inv]
+theorem inv_take (n : Nat) (x : List UInt8) : inv (x.take n) = (inv x).take n := by simp [inv, List.map_take]
+theorem inv_drop (n : Nat) (x : List UInt8) : inv (x.drop n) = (inv x).drop n := by simp [inv, List.map_drop]
+theorem inv_getElem? (n : Nat) (x : List UInt8) : (inv x)[n]? = x[n]?.map (~~~ ·) := by simp [inv]
+
+/-- decoding the inverted row with the inverted sentinels is decoding the plain row,
+inverted (`decode_blocks` with `options.descending`) -/
+theorem decodeBlocks_desc (fuel : Nat) : ∀ (k : Nat) (row acc : List UInt8),
+    decodeBlocksFrom true fuel k (inv row) (inv acc)
+      = (decodeBlocksFrom false fuel k row acc).map (fun p => (inv p.1, inv p.2)) := by
+  induction fuel with
+  | zero => intro k row acc; rfl
+  | succ fuel ih =>
+    intro k row acc
+    rw [decodeBlocksFrom_succ, decodeBlocksFrom_succ, inv_getElem?]
+    cases h : row[schedSize k]? with
+    | none => rfl
+    | some s =>
+      simp only [Option.map_some, if_true, Bool.false_eq_true, if_false, ne_eq, u8_not_inj, u8_not_not]
+      by_cases hs : s = blockContinuation
+      · simp only [hs, not_true_eq_false, if_false]
+        rw [← inv_drop, ← inv_take, ← inv_append, ih]
+      · simp only [hs, not_false_eq_true, if_true, Option.map_some]
+        rw [inv_append, inv_take, inv_drop]
+
+
+theorem decodeVar_cons (o : SortOptions) (b : UInt8) (rest : List UInt8) :
+    decodeVar o (b :: rest) =
+      if b ≠ (if o.descending then ~~~nonEmptySentinel else nonEmptySentinel) then
+        some (if b = nullSentinel o then none else some [], rest)
+      else
+        match decodeBlocksFrom o.descending (rest.length + 1) 0 rest [] with
+        | none => none
+        | some (v, rest') => some (if b = nullSentinel o then none else some (invIf o.descending v), rest') := rfl
+
+open ArrowModel.Generated.C11 in
+/-- the sentinels are pairwise distinct, also after inversion -/
+theorem sentinel_facts :
+    UInt8.ofNat NULL_SENTINEL_FIRST ≠ nonEmptySentinel ∧ UInt8.ofNat NULL_SENTINEL_FIRST ≠ ~~~nonEmptySentinel ∧
+    UInt8.ofNat NULL_SENTINEL_LAST ≠ nonEmptySentinel ∧ UInt8.ofNat NULL_SENTINEL_LAST ≠ ~~~nonEmptySentinel ∧
+    emptySentinel ≠ nonEmptySentinel ∧ ~~~emptySentinel ≠ ~~~nonEmptySentinel ∧
+    emptySentinel ≠ UInt8.ofNat NULL_SENTINEL_FIRST ∧ emptySentinel ≠ UInt8.ofNat NULL_SENTINEL_LAST ∧
+    ~~~emptySentinel ≠ UInt8.ofNat NULL_SENTINEL_FIRST ∧ ~~~emptySentinel ≠ UInt8.ofNat NULL_SENTINEL_LAST ∧
+    nonEmptySentinel ≠ UInt8.ofNat NULL_SENTINEL_FIRST ∧ nonEmptySentinel ≠ UInt8.ofNat NULL_SENTINEL_LAST ∧
+    ~~~nonEmptySentinel ≠ UInt8.ofNat NULL_SENTINEL_FIRST ∧ ~~~nonEmptySentinel ≠ UInt8.ofNat NULL_SENTINEL_LAST := by
+  decide
+
+/-- **decode ∘ encode** for the variable-length field, with anything following it -/
+theorem decodeVar_encodeVar (o : SortOptions) (v : Option (List UInt8)) (rest : List UInt8) :
+    decodeVar o (encodeVar o v ++ rest) = some (v, rest) := by
+  obtain ⟨d, nf⟩ := o
+  obtain ⟨f1, f2, f3, f4, f5, f6, f7, f8, f9, f10, f11, f12, f13, f14⟩ := sentinel_facts
+  cases v with
+  | none =>
+    simp only [encodeVar, List.singleton_append, decodeVar_cons]
+    cases d <;> cases nf <;> simp [nullSentinel, f1, f2, f3, f4, f5, f6, f7, f8, f9, f10, f11, f12, f13, f14]
+  | some v =>
+    cases v with
+    | nil =>
+      simp only [encodeVar, List.singleton_append, decodeVar_cons]
+      cases d <;> cases nf <;> simp [nullSentinel, f1, f2, f3, f4, f5, f6, f7, f8, f9, f10, f11, f12, f13, f14]
+    | cons x xs =>
+      rw [encodeVar_cons]
+      cases d
+      · simp only [invIf, Bool.false_eq_true, if_false, List.cons_append, decodeVar_cons, ne_eq, not_true_eq_false]
+        rw [decodeBlocks_asc _ 0 _ (x :: xs) [] rest (Nat.le_refl _) (by simp; omega)]
+        cases nf <;> simp [nullSentinel, f1, f2, f3, f4, f5, f6, f7, f8, f9, f10, f11, f12, f13, f14]
+      · simp only [invIf, if_true, inv, List.map_cons, List.cons_append, decodeVar_cons, ne_eq, not_true_eq_false, if_false]
+        have h := decodeBlocks_desc ((List.map (fun x => ~~~x) (encSched 0 (x :: xs)) ++ rest).length + 1) 0
+          (encSched 0 (x :: xs) ++ inv rest) []
+        rw [inv_append, inv_inv] at h
+        simp only [inv, List.map_nil] at h
+        rw [h, decodeBlocks_asc _ 0 _ (x :: xs) [] (List.map (fun x => ~~~x) rest) (Nat.le_refl _) (by simp; omega)]
+        simp only [Option.map_some, List.nil_append]
+        have h2 := inv_inv rest
+        simp only [inv] at h2
+        rw [h2]
+        have h3 := inv_inv (x :: xs)
+        simp only [inv] at h3
+        rw [h3]
+        cases nf <;> simp [nullSentinel, f1, f2, f3, f4, f5, f6, f7, f8, f9, f10, f11, f12, f13, f14]
+
+
+theorem flipSign_flipSign (x : List UInt8) : flipSign (flipSign x) = x := by
+  cases x with
+  | nil => rfl
+  | cons b bs => simp [flipSign, UInt8.xor_assoc]
+
+theorem floatXform_invol (n s : Nat) (hn : 0 < n) (hs : s < 2 ^ n) :
+    floatXform n (n - 1) 1 (floatXform n (n - 1) 1 s) = s := by
+  have hp : 2 ^ n = 2 * 2 ^ (n - 1) := by
+    obtain ⟨k, rfl⟩ : ∃ k, n = k + 1 := ⟨n - 1, by omega⟩
+    rw [Nat.add_sub_cancel, Nat.pow_succ]; omega
+  have h1 := floatXform_eq n s hn hs
+  have hl : floatXform n (n - 1) 1 s < 2 ^ n := by rw [h1]; split <;> omega
+  rw [floatXform_eq n _ hn hl, h1]
+  by_cases h : s < 2 ^ (n - 1)
+  · simp [h]
+  · rw [if_neg h]
+    have : ¬ (2 ^ (n - 1) + (2 ^ n - 1 - s) < 2 ^ (n - 1)) := by omega
+    rw [if_neg this]; omega
+
+theorem decodeFixedBody_encode (t : FTy) (i : Int) (h : t.admits (some (.int i)) = true) :
+    decodeFixedBody t (encodeFixedBody t i) = i := by
+  cases t with
+  | int signed w =>
+    cases signed with
+    | true =>
+      simp only [FTy.admits, Bool.and_eq_true, decide_eq_true_eq] at h
+      obtain ⟨⟨h1, h2⟩, hw⟩ := h
+      obtain ⟨w', rfl⟩ : ∃ w', w = w' + 1 := ⟨w - 1, by omega⟩
+      obtain ⟨hr, hu⟩ := twos_range w' i h1 h2
+      simp only [decodeFixedBody, encodeFixedBody, flipSign_flipSign]
+      rw [beNat_beBytes _ _ (by rw [← two_pow_8]; exact hr), hu]
+    | false =>
+      simp only [FTy.admits, Bool.and_eq_true, decide_eq_true_eq] at h
+      obtain ⟨⟨h1, h2⟩, hw⟩ := h
+      simp only [decodeFixedBody, encodeFixedBody]
+      rw [beNat_beBytes _ _ (by rw [← two_pow_8]; rw [int_two_pow] at h2; omega)]
+      omega
+  | float w =>
+    simp only [FTy.admits, Bool.and_eq_true, decide_eq_true_eq] at h
+    obtain ⟨⟨h1, h2⟩, hw⟩ := h
+    have hbits : i.toNat < 2 ^ (8 * w) := by rw [int_two_pow] at h2; omega
+    have hn : 0 < 8 * w := by omega
+    have hx := floatXform_eq (8 * w) i.toNat hn hbits
+    have hp : 2 ^ (8 * w) = 2 * 2 ^ (8 * w - 1) := by
+      obtain ⟨k, hk⟩ : ∃ k, 8 * w = k + 1 := ⟨8 * w - 1, by omega⟩
+      rw [hk, Nat.add_sub_cancel, Nat.pow_succ]; omega
+    have hxl : floatXform (8 * w) (8 * w - 1) 1 i.toNat < 2 ^ (8 * w) := by rw [hx]; split <;> omega
+    simp only [decodeFixedBody, encodeFixedBody, flipSign_flipSign, floatShifts_eq hw]
+    rw [beNat_beBytes _ _ (by rw [← two_pow_8]; exact hxl), floatXform_invol _ _ hn hbits]
+    omega
+  | bool =>
+    simp only [FTy.admits, decide_eq_true_eq] at h
+    rcases h with rfl | rfl <;> decide
+  | bin => simp [FTy.admits] at h
+  | fsb n => simp [FTy.admits] at h
+
+theorem invIf_invIf (d : Bool) (x : List UInt8) : invIf d (invIf d x) = x := by
+  cases d <;> simp [invIf, inv_inv]
+
+theorem zeros_length (n : Nat) : (zeros n).length = n := by simp [zeros]
+
+theorem validByte_ne_null (o : SortOptions) : nullSentinel o ≠ validByte := by
+  obtain ⟨d, nf⟩ := o
+  cases nf <;> (show UInt8.ofNat _ ≠ validByte; decide)
+
+/-- decode of one fixed slot followed by anything -/
+theorem decodeFixedSlot (o : SortOptions) (w : Nat) (body : Option (List UInt8)) (rest : List UInt8)
+    (hb : ∀ x, body = some x → x.length = w) :
+    ∃ b r, encodeFixedSlot o w body ++ rest = b :: r ∧ w ≤ r.length ∧ r.drop w = rest ∧
+      (b = validByte ↔ body.isSome) ∧ (∀ x, body = some x → invIf o.descending (r.take w) = x) := by
+  cases body with
+  | none =>
+    refine ⟨nullSentinel o, zeros w ++ rest, rfl, by simp [zeros], ?_, ?_, by simp⟩
+    · rw [List.drop_left' (zeros_length w)]
+    · simp [validByte_ne_null]
+  | some x =>
+    have hx := hb x rfl
+    refine ⟨validByte, invIf o.descending x ++ rest, rfl, by simp [invIf_length, hx], ?_, by simp, ?_⟩
+    · rw [List.drop_left' (by rw [invIf_length, hx])]
+    · intro y hy; cases hy
+      rw [List.take_left' (by rw [invIf_length, hx]), invIf_invIf]
 
 end ArrowModel.C11
